@@ -83,7 +83,7 @@ FillIn(idx, ty, st, e) ==
 
 \* whether these conversions succeed on every value is the subject of C04/C05/C09 (JSON) -- here only their purity is judged
 Tolerated == {"todict", "tojson", "topydict", "repr"}
-Rejected == {"parse_bad", "fromdict_bad"}
+Rejected == {"parse_bad", "fromdict_bad", "frompydict_bad"}
 IsPrefixSeq(a, b) == Len(a) <= Len(b) /\ SubSeq(b, 1, Len(a)) = a
 Observers == {"eqother", "get", "getin", "bytes", "len", "bool", "repr", "todict", "tojson", "topydict", "eqself", "observe", "mutcopy"}
 Copiers == {"copy", "deepcopy", "pickle"}
